@@ -1046,6 +1046,45 @@ impl<Tr: ?Sized + TrOps, M: BackOps> World<Tr, M> {
                     IterKind::TMut => run_iter!(lib!(vv.downcast_mut::<T>().unwrap().iter_mut()), |e: &mut T| e.token()),
                 }
             }
+            Op::CursorMax(a, pat) => {
+                // a vector of zero-sized, drop-glue-free elements of length usize::MAX: only the cursor arithmetic
+                // of the range iterator is exercised; the vector lives and dies inside this step
+                assert!(T::SIZE == 0 && !T::DG && M::RESIZABLE, "cursor_max needs a zero-sized element without drop glue");
+                let mut v = lib!(AnyVec::<Tr, M>::new::<T>());
+                lib!(M::reserve(&mut v, usize::MAX));
+                unsafe { lib!(v.set_len(usize::MAX)) };
+                fn hint<I: ExactSizeIterator>(it: &I) -> u64 {
+                    let (lo, hi) = it.size_hint();
+                    if hi != Some(lo) || it.len() != lo { u64::MAX - 7 } else { lo as u64 }
+                }
+                match a {
+                    Api::E => {
+                        let mut it = lib!(v.drain(usize::MAX - 3..));
+                        ret.push(hint(&it));
+                        for front in pat {
+                            let x = if *front { lib!(it.next()) } else { lib!(it.next_back()) };
+                            ret.push(x.is_some() as u64);
+                            if let Some(e) = x { std::mem::forget(e); }
+                            ret.push(hint(&it));
+                        }
+                        std::mem::forget(it);
+                    }
+                    Api::T => {
+                        let mut tv = v.downcast_mut::<T>().unwrap();
+                        let mut it = lib!(tv.drain(usize::MAX - 3..));
+                        ret.push(hint(&it));
+                        for front in pat {
+                            let x = if *front { lib!(it.next()) } else { lib!(it.next_back()) };
+                            ret.push(x.is_some() as u64);
+                            if let Some(e) = x { std::mem::forget(e); }
+                            ret.push(hint(&it));
+                        }
+                        std::mem::forget(it);
+                    }
+                }
+                unsafe { lib!(v.set_len(0)) };
+                lib!(drop(v));
+            }
             Op::LazyDown(depth, v, idx) => {
                 assert!(Tr::CL, "lazy clone needs a Cloneable constraint set");
                 let vv = self.v(*v);
